@@ -19,8 +19,10 @@ import Nstd.Life.LemmasCount
   Model: Nstd/Life/Model.lean (slot-level model of Array, List, Map, MultiMap, HashMap, HashSet,
   PoolList, PoolMap: two variables of each kind, operations `Op` incl. the alias operations, compiled
   into micro steps that emit the lifecycle event log).  Judge of the log: the automaton `Chk` of
-  Nstd/Life/Spec.lean.  `run init ops` = the state after an arbitrary history `ops` starting from the
-  sixteen default-constructed variables; `destroyAll` = their destructors.
+  Nstd/Life/Spec.lean.  `run (init p) ops` = the state after an arbitrary history `ops` starting from the
+  sixteen default-constructed variables; `destroyAll` = their destructors.  `p : Per` = the number of items a
+  node container of each kind allocates per block (blocks of N items, for every table N ≥ 1): every theorem
+  about reachable states holds for every such table.
 -/
 namespace Nstd.Life
 
@@ -32,10 +34,10 @@ namespace Nstd.Life
     is a live object, objects are constructed only inside allocated blocks, no block id is allocated twice,
     a block is freed only while allocated and with no live object inside, and at the end nothing is live
     and no block is allocated (no leak, no double free, no use after destruction). -/
-theorem lifecycle_ok (ops : List Op) :
-    ∃ st', execAll (run init ops) destroyAll = some st' ∧ WellFormed st'.log := by
-  obtain ⟨st', hd⟩ := Ops.finish_defined ops
-  obtain ⟨i1, t1⟩ := reach_ok ops
+theorem lifecycle_ok (p : Per) (ops : List Op) :
+    ∃ st', execAll (run (init p) ops) destroyAll = some st' ∧ WellFormed st'.log := by
+  obtain ⟨st', hd⟩ := Ops.finish_defined p ops
+  obtain ⟨i1, t1⟩ := reach_ok p ops
   obtain ⟨i2, t2⟩ := execAll_ok i1 destroyAll hd
   obtain ⟨hn, ha⟩ := destroyAll_effect i1 hd
   exact ⟨st', hd, chkOf st', trace_from_empty (t1.trans t2), clean_of_empty i2 hn ha⟩
@@ -44,11 +46,11 @@ theorem lifecycle_ok (ops : List Op) :
     the variables, the operations, the destructors), for every object location the number of constructions equals
     the number of destructions (and by acceptance they alternate: construct, destroy, construct, ...), every block
     id is allocated at most once, and freed exactly as often as it is allocated. -/
-theorem exactly_once (ops : List Op) :
-    ∃ st', execAll (run init ops) destroyAll = some st' ∧
+theorem exactly_once (p : Per) (ops : List Op) :
+    ∃ st', execAll (run (init p) ops) destroyAll = some st' ∧
       (∀ l, ctorCount l st'.log = dtorCount l st'.log) ∧
       (∀ b, allocCount b st'.log ≤ 1 ∧ allocCount b st'.log = freeCount b st'.log) := by
-  obtain ⟨st', hd, c, hrun, hclean⟩ := lifecycle_ok ops
+  obtain ⟨st', hd, c, hrun, hclean⟩ := lifecycle_ok p ops
   refine ⟨st', hd, ?_, ?_⟩
   · intro l
     have := Chk.run_objects l st'.log Chk.init c hrun
@@ -65,21 +67,21 @@ theorem exactly_once (ops : List Op) :
     micro steps: the model never takes a "cannot happen" exit (`fault`), in particular not in the loops of the
     alias operations (`l.insert(pos, l)`, `a.append(a)`, `s.remove(s)`, `m.insert(m)`, `a.append(&a[i], n)`).
     Hence `lifecycle_ok` and the other theorems speak about complete executions, not about aborted ones. -/
-theorem no_fault (ops : List Op) (op : Op) : stepRes (run init ops) op ≠ Res.fault :=
-  Ops.no_fault ops op
+theorem no_fault (p : Per) (ops : List Op) (op : Op) : stepRes (run (init p) ops) op ≠ Res.fault :=
+  Ops.no_fault p ops op
 
 /-- C04, prefix form: at every point of every history the log so far is accepted by the checker
     (so no misuse has happened yet), whether or not the destructors follow. -/
-theorem lifecycle_prefix_ok (ops : List Op) : ∃ c, Chk.init.run (run init ops).log = some c :=
-  ⟨_, trace_from_empty (reach_ok ops).2⟩
+theorem lifecycle_prefix_ok (p : Per) (ops : List Op) : ∃ c, Chk.init.run (run (init p) ops).log = some c :=
+  ⟨_, trace_from_empty (reach_ok p ops).2⟩
 
 /-- C04 `blocks_released_only_by_destructor`.  In every reachable state, every micro step other than a
     container destructor (`destroy`, `aDestroy`: ~List, ~Map, ..., ~Array, also as part of re-construction) and
     `Array::reserve` (which moves the elements and releases the old storage) keeps every allocated block
     allocated: insert, remove, clear, swap, assignment never free memory (clear keeps the blocks for reuse). -/
-theorem blocks_released_only_by_destructor (ops : List Op) (m : Micro) (hm : m.releases = false) (st' : State)
-    (he : exec (run init ops) m = some st') : ∀ b n, (run init ops).blk b = some n → st'.blk b = some n :=
-  exec_blkKept (reach_ok ops).1 m hm he
+theorem blocks_released_only_by_destructor (p : Per) (ops : List Op) (m : Micro) (hm : m.releases = false) (st' : State)
+    (he : exec (run (init p) ops) m = some st') : ∀ b n, (run (init p) ops).blk b = some n → st'.blk b = some n :=
+  exec_blkKept (reach_ok p ops).1 m hm he
 
 /-- a concrete history with alias operations on several containers (evaluated by the kernel): the destructors
     are defined for it, as `lifecycle_ok` says for every history -/
@@ -89,7 +91,7 @@ def sampleOps : List Op :=
    .mInsert ⟨.M, 0⟩ 3 30, .mInsertRef ⟨.M, 0⟩ 3 0, .mInsertMap ⟨.M, 0⟩ 0, .copy ⟨.U, 1⟩ 0,
    .hInsert 0 none 4 40, .sInsert 0 none 4, .sRemoveSet 0 0, .pAppend 0 9, .qAppend 0 1 2, .swap ⟨.P, 0⟩ 1]
 
-example : (execAll (run init sampleOps) destroyAll).isSome = true := by decide +kernel
+example : (execAll (run (init per4) sampleOps) destroyAll).isSome = true := by decide +kernel
 
 -- C04: copies are deep ----------------------------------------------------------------------------------------
 
@@ -97,13 +99,13 @@ example : (execAll (run init sampleOps) destroyAll).isSome = true := by decide +
     slot, and an element slot of a node container is never inside the storage of an array: whatever a copy
     construction / assignment / insert-from-other-container produced lives in slots of its own
     (a shallow copy, as the implicit MultiMap copy was, is impossible). -/
-theorem copy_fresh (ops : List Op) (c c' : Var) (it : Item)
-    (h1 : it ∈ ((run init ops).nodes c).items) (h2 : it ∈ ((run init ops).nodes c').items) : c = c' :=
-  (reach_ok ops).1.slot_owner (List.mem_append_left _ h1) (List.mem_append_left _ h2)
+theorem copy_fresh (p : Per) (ops : List Op) (c c' : Var) (it : Item)
+    (h1 : it ∈ ((run (init p) ops).nodes c).items) (h2 : it ∈ ((run (init p) ops).nodes c').items) : c = c' :=
+  (reach_ok p ops).1.slot_owner (List.mem_append_left _ h1) (List.mem_append_left _ h2)
 
-theorem copy_fresh_arr (ops : List Op) (a a' s : Nat)
-    (h1 : ((run init ops).arrs a).store = some s) (h2 : ((run init ops).arrs a').store = some s) : a = a' := by
-  have := (reach_ok ops).1.own_unique (.arr a) (.arr a') s h1 h2
+theorem copy_fresh_arr (p : Per) (ops : List Op) (a a' s : Nat)
+    (h1 : ((run (init p) ops).arrs a).store = some s) (h2 : ((run (init p) ops).arrs a').store = some s) : a = a' := by
+  have := (reach_ok p ops).1.own_unique (.arr a) (.arr a') s h1 h2
   cases this; rfl
 
 /-- C04 `copy_independent`.  In every reachable state, an operation leaves every container it does not
@@ -112,41 +114,41 @@ theorem copy_fresh_arr (ops : List Op) (a a' s : Nat)
     overwrite, clear, destruction, self-referential operations ...) is invisible in the other.
     (`Op.nodeTargets op` = the variables the operation may modify: `copy c w`, `assign c w`, `insertList v p w`,
     `insertMap c w`, `appendSet v w`, `removeSet v w` target only the destination; swap targets both.) -/
-theorem copy_independent (ops : List Op) (op : Op) (c : Var) (hc : c ∉ op.nodeTargets) :
-    (step (run init ops) op).nodes c = (run init ops).nodes c ∧
-      absNode (step (run init ops) op) c = absNode (run init ops) c :=
-  Ops.step_frame_node ops op c hc
+theorem copy_independent (p : Per) (ops : List Op) (op : Op) (c : Var) (hc : c ∉ op.nodeTargets) :
+    (step (run (init p) ops) op).nodes c = (run (init p) ops).nodes c ∧
+      absNode (step (run (init p) ops) op) c = absNode (run (init p) ops) c :=
+  Ops.step_frame_node p ops op c hc
 
-theorem copy_independent_arr (ops : List Op) (op : Op) (a : Nat) (ha : a ∉ op.arrTargets) :
-    (step (run init ops) op).arrs a = (run init ops).arrs a ∧
-      absArr (step (run init ops) op) a = absArr (run init ops) a :=
-  Ops.step_frame_arr ops op a ha
+theorem copy_independent_arr (p : Per) (ops : List Op) (op : Op) (a : Nat) (ha : a ∉ op.arrTargets) :
+    (step (run (init p) ops) op).arrs a = (run (init p) ops).arrs a ∧
+      absArr (step (run (init p) ops) op) a = absArr (run (init p) ops) a :=
+  Ops.step_frame_arr p ops op a ha
 
 /-- C04 `copy_equal` (List, Array).  Right after `B b(a)` (copy) and after `b = a` (assign, b ≠ a) the copy has
     exactly the contents of its source, in every reachable state. -/
-theorem copy_equal_list (ops : List Op) (v w : Nat) (hv : v ≤ 1) (hw : w ≤ 1) (hne : v ≠ w) :
-    absNode (step (run init ops) (.copy ⟨.L, v⟩ w)) ⟨.L, v⟩ = absNode (run init ops) ⟨.L, w⟩ ∧
-    absNode (step (run init ops) (.assign ⟨.L, v⟩ w)) ⟨.L, v⟩ = absNode (run init ops) ⟨.L, w⟩ :=
-  Copy.copy_equal_list ops v w hv hw hne
+theorem copy_equal_list (p : Per) (ops : List Op) (v w : Nat) (hv : v ≤ 1) (hw : w ≤ 1) (hne : v ≠ w) :
+    absNode (step (run (init p) ops) (.copy ⟨.L, v⟩ w)) ⟨.L, v⟩ = absNode (run (init p) ops) ⟨.L, w⟩ ∧
+    absNode (step (run (init p) ops) (.assign ⟨.L, v⟩ w)) ⟨.L, v⟩ = absNode (run (init p) ops) ⟨.L, w⟩ :=
+  Copy.copy_equal_list p ops v w hv hw hne
 
-theorem copy_equal_array (ops : List Op) (v w : Nat) (hv : v ≤ 1) (hw : w ≤ 1) (hne : v ≠ w) :
-    absArr (step (run init ops) (.copy ⟨.A, v⟩ w)) v = absArr (run init ops) w ∧
-    absArr (step (run init ops) (.assign ⟨.A, v⟩ w)) v = absArr (run init ops) w :=
-  Copy.copy_equal_array ops v w hv hw hne
+theorem copy_equal_array (p : Per) (ops : List Op) (v w : Nat) (hv : v ≤ 1) (hw : w ≤ 1) (hne : v ≠ w) :
+    absArr (step (run (init p) ops) (.copy ⟨.A, v⟩ w)) v = absArr (run (init p) ops) w ∧
+    absArr (step (run (init p) ops) (.assign ⟨.A, v⟩ w)) v = absArr (run (init p) ops) w :=
+  Copy.copy_equal_array p ops v w hv hw hne
 
 /-- C04 `copy_equal` (List, Map, MultiMap, HashMap, HashSet): right after copy construction `B b(a)` and after
     assignment `b = a` (b ≠ a) the destination has exactly the contents (keys and values, in iteration order)
     of the source, in every reachable state.  (For the keyed kinds this rests on `keys_ok` below.) -/
-theorem copy_equal_node (ops : List Op) (c : Var) (w : Nat) (hc : c.valid = true) (hp : c.k.isPool = false)
+theorem copy_equal_node (p : Per) (ops : List Op) (c : Var) (w : Nat) (hc : c.valid = true) (hp : c.k.isPool = false)
     (hw : w ≤ 1) (hne : c.v ≠ w) :
-    absNode (step (run init ops) (.copy c w)) c = absNode (run init ops) ⟨c.k, w⟩ ∧
-    absNode (step (run init ops) (.assign c w)) c = absNode (run init ops) ⟨c.k, w⟩ :=
-  Copy.copy_equal_node ops c w hc hp hw hne
+    absNode (step (run (init p) ops) (.copy c w)) c = absNode (run (init p) ops) ⟨c.k, w⟩ ∧
+    absNode (step (run (init p) ops) (.assign c w)) c = absNode (run (init p) ops) ⟨c.k, w⟩ :=
+  Copy.copy_equal_node p ops c w hc hp hw hne
 
 /-- in every reachable state of the model the keys of a Map are strictly increasing, those of a MultiMap
     non-decreasing, those of HashMap / HashSet / PoolMap pairwise different (an invariant of this model needed for
     `copy_equal_node`; the corresponding facts about the real trees and hash tables are C01/C02) -/
-theorem keys_ok (ops : List Op) : Copy.KeysOk (run init ops) := Copy.keysOk_reach ops
+theorem keys_ok (p : Per) (ops : List Op) : Copy.KeysOk (run (init p) ops) := Copy.keysOk_reach p ops
 
 -- C04: self arguments behave as if copied first ------------------------------------------------------------------
 
@@ -159,38 +161,38 @@ theorem assign_self_noop (st : State) (c : Var) : step st (.assign c c.v) = st :
 
 /-- `a.append(a[i])` in any reachable state never faults and equals `x = a[i]; a.append(x)`:
     both append the payload the element had before the call (also when the storage is reallocated). -/
-theorem append_ref_as_if_copied (ops : List Op) (v i x : Nat) (hv : v ≤ 1)
-    (hx : (absArr (run init ops) v)[i]? = some (some x)) :
-    ∃ s1 s2, stepRes (run init ops) (.aAppendRef v i) = .ok s1 ∧ stepRes (run init ops) (.aAppend v x) = .ok s2 ∧
-      absArr s1 v = absArr s2 v ∧ absArr s1 v = absArr (run init ops) v ++ [some x] := by
-  have h := (reach_ok ops).1
+theorem append_ref_as_if_copied (p : Per) (ops : List Op) (v i x : Nat) (hv : v ≤ 1)
+    (hx : (absArr (run (init p) ops) v)[i]? = some (some x)) :
+    ∃ s1 s2, stepRes (run (init p) ops) (.aAppendRef v i) = .ok s1 ∧ stepRes (run (init p) ops) (.aAppend v x) = .ok s2 ∧
+      absArr s1 v = absArr s2 v ∧ absArr s1 v = absArr (run (init p) ops) v ++ [some x] := by
+  have h := (reach_ok p ops).1
   obtain ⟨s1, h1, a1⟩ := aAppendRef_abs h v i (some x) hv hx
   obtain ⟨s2, h2, a2⟩ := aAppend_abs h v x hv (alive_of_abs h hx)
   exact ⟨s1, s2, h1, h2, by rw [a1, a2], a1⟩
 
 /-- `a.resize(n, a[i])` (growing) equals `x = a[i]; a.resize(n, x)`. -/
-theorem resize_ref_as_if_copied (ops : List Op) (v n i x : Nat) (hv : v ≤ 1)
-    (hx : (absArr (run init ops) v)[i]? = some (some x)) (hn : ((run init ops).arrs v).size ≤ n) :
-    ∃ s1 s2, stepRes (run init ops) (.aResizeRef v n i) = .ok s1 ∧ stepRes (run init ops) (.aResize v n x) = .ok s2 ∧
+theorem resize_ref_as_if_copied (p : Per) (ops : List Op) (v n i x : Nat) (hv : v ≤ 1)
+    (hx : (absArr (run (init p) ops) v)[i]? = some (some x)) (hn : ((run (init p) ops).arrs v).size ≤ n) :
+    ∃ s1 s2, stepRes (run (init p) ops) (.aResizeRef v n i) = .ok s1 ∧ stepRes (run (init p) ops) (.aResize v n x) = .ok s2 ∧
       absArr s1 v = absArr s2 v ∧
-      absArr s1 v = absArr (run init ops) v ++ List.replicate (n - ((run init ops).arrs v).size) (some x) := by
-  have h := (reach_ok ops).1
+      absArr s1 v = absArr (run (init p) ops) v ++ List.replicate (n - ((run (init p) ops).arrs v).size) (some x) := by
+  have h := (reach_ok p ops).1
   obtain ⟨s1, h1, a1⟩ := aResizeRef_abs h v n i (some x) hv hx hn
   obtain ⟨s2, h2, a2⟩ := aResize_abs h v n x hv (alive_of_abs h hx) hn
   exact ⟨s1, s2, h1, h2, by rw [a1, a2], a1⟩
 
 /-- `a.append(&a[i], n)` with the range inside the array appends a copy of the old elements i .. i+n-1. -/
-theorem append_ptr_as_if_copied (ops : List Op) (v i n : Nat) (hv : v ≤ 1)
-    (ha : ((run init ops).arrs v).alive = true) (hin : i + n ≤ ((run init ops).arrs v).size) :
-    ∃ s, stepRes (run init ops) (.aAppendPtr v i n) = .ok s ∧
-      absArr s v = absArr (run init ops) v ++ (List.range n).map (fun j => ((absArr (run init ops) v)[i + j]?).join) :=
-  aAppendPtr_abs (reach_ok ops).1 v i n hv ha hin
+theorem append_ptr_as_if_copied (p : Per) (ops : List Op) (v i n : Nat) (hv : v ≤ 1)
+    (ha : ((run (init p) ops).arrs v).alive = true) (hin : i + n ≤ ((run (init p) ops).arrs v).size) :
+    ∃ s, stepRes (run (init p) ops) (.aAppendPtr v i n) = .ok s ∧
+      absArr s v = absArr (run (init p) ops) v ++ (List.range n).map (fun j => ((absArr (run (init p) ops) v)[i + j]?).join) :=
+  aAppendPtr_abs (reach_ok p ops).1 v i n hv ha hin
 
 /-- `a.append(a)` appends a copy of the old contents. -/
-theorem append_self_as_if_copied (ops : List Op) (v : Nat) (hv : v ≤ 1) (ha : ((run init ops).arrs v).alive = true) :
-    ∃ s, stepRes (run init ops) (.aAppendArr v v) = .ok s ∧
-      absArr s v = absArr (run init ops) v ++ absArr (run init ops) v := by
-  have h := (reach_ok ops).1
+theorem append_self_as_if_copied (p : Per) (ops : List Op) (v : Nat) (hv : v ≤ 1) (ha : ((run (init p) ops).arrs v).alive = true) :
+    ∃ s, stepRes (run (init p) ops) (.aAppendArr v v) = .ok s ∧
+      absArr s v = absArr (run (init p) ops) v ++ absArr (run (init p) ops) v := by
+  have h := (reach_ok p ops).1
   obtain ⟨s, h1, a1⟩ := aAppendSelf_abs h v hv ha
   refine ⟨s, h1, ?_⟩
   rw [a1, ← absArr_length _ v h, range_get_self]
@@ -198,15 +200,15 @@ theorem append_self_as_if_copied (ops : List Op) (v : Nat) (hv : v ≤ 1) (ha : 
 /-- `l.append(l)` (pos = none), `l.prepend(l)` (pos = some 0), `l.insert(it_p, l)`: terminates without fault and
     yields  (elements before p) ++ (a copy of the whole original list) ++ (elements from p on) -
     what inserting an independent copy of the list yields. -/
-theorem list_insert_self_as_if_copied (ops : List Op) (v : Nat) (hv : v ≤ 1)
-    (ha : ((run init ops).nodes ⟨.L, v⟩).alive = true) (pos : Option Nat)
-    (hp : pos.getD (absNode (run init ops) ⟨.L, v⟩).length ≤ (absNode (run init ops) ⟨.L, v⟩).length) :
-    ∃ s, stepRes (run init ops) (.lInsertList v pos v) = .ok s ∧
+theorem list_insert_self_as_if_copied (p : Per) (ops : List Op) (v : Nat) (hv : v ≤ 1)
+    (ha : ((run (init p) ops).nodes ⟨.L, v⟩).alive = true) (pos : Option Nat)
+    (hp : pos.getD (absNode (run (init p) ops) ⟨.L, v⟩).length ≤ (absNode (run (init p) ops) ⟨.L, v⟩).length) :
+    ∃ s, stepRes (run (init p) ops) (.lInsertList v pos v) = .ok s ∧
       absNode s ⟨.L, v⟩ =
-        (absNode (run init ops) ⟨.L, v⟩).take (pos.getD (absNode (run init ops) ⟨.L, v⟩).length) ++
-        absNode (run init ops) ⟨.L, v⟩ ++
-        (absNode (run init ops) ⟨.L, v⟩).drop (pos.getD (absNode (run init ops) ⟨.L, v⟩).length) :=
-  lInsertSelf_abs (reach_ok ops).1 v hv ha pos hp
+        (absNode (run (init p) ops) ⟨.L, v⟩).take (pos.getD (absNode (run (init p) ops) ⟨.L, v⟩).length) ++
+        absNode (run (init p) ops) ⟨.L, v⟩ ++
+        (absNode (run (init p) ops) ⟨.L, v⟩).drop (pos.getD (absNode (run (init p) ops) ⟨.L, v⟩).length) :=
+  lInsertSelf_abs (reach_ok p ops).1 v hv ha pos hp
 
 /-- C04 `ref_arg_as_if_copied` (micro-step level, every state): a step whose source operand is a reference
     `r` to an object with payload p - an element of the container itself, `m.insert(k, *m.find(k2))`,
@@ -262,49 +264,49 @@ theorem list_insert_own_element_as_if_copied (st : State) (v : Nat) (pos : Optio
   · simp [stepRes, compile, guard', hg, ResEq]
 
 /-- `s.append(s)` (HashSet): nothing changes - what appending an independent copy of s does (all keys present). -/
-theorem set_append_self_noop (ops : List Op) (v : Nat) : step (run init ops) (.sAppendSet v v) = run init ops :=
-  sAppendSelf_noop (reach_ok ops).1 (Ops.allAlive_reach ops) v
+theorem set_append_self_noop (p : Per) (ops : List Op) (v : Nat) : step (run (init p) ops) (.sAppendSet v v) = run (init p) ops :=
+  sAppendSelf_noop (reach_ok p ops).1 (Ops.allAlive_reach p ops) v
 
 /-- `s.remove(s)` (HashSet): terminates without fault and leaves the empty set - what removing an independent
     copy of s does. -/
-theorem set_remove_self_empties (ops : List Op) (v : Nat) (hv : v ≤ 1) :
-    ∃ s, stepRes (run init ops) (.sRemoveSet v v) = .ok s ∧ absNode s ⟨.S, v⟩ = [] :=
-  sRemoveSelf_empty (reach_ok ops).1 (Ops.allAlive_reach ops) v hv
+theorem set_remove_self_empties (p : Per) (ops : List Op) (v : Nat) (hv : v ≤ 1) :
+    ∃ s, stepRes (run (init p) ops) (.sRemoveSet v v) = .ok s ∧ absNode s ⟨.S, v⟩ = [] :=
+  sRemoveSelf_empty (reach_ok p ops).1 (Ops.allAlive_reach p ops) v hv
 
 /-- C04 `self_arg_as_if_copied`, literal refinement form: an operation whose argument is the container itself
     yields the same value as first copy-constructing a temporary `t` from the container (the other variable
     `1 - v` of the kind serves as `t`) and passing `t` - for every history, every position. -/
-theorem list_insert_self_refines (ops : List Op) (v : Nat) (hv : v ≤ 1) (pos : Option Nat)
-    (hp : pos.getD (absNode (run init ops) ⟨.L, v⟩).length ≤ (absNode (run init ops) ⟨.L, v⟩).length) :
-    absNode (step (run init ops) (.lInsertList v pos v)) ⟨.L, v⟩ =
-    absNode (step (step (run init ops) (.copy ⟨.L, 1 - v⟩ v)) (.lInsertList v pos (1 - v))) ⟨.L, v⟩ :=
-  Refine.list_insert_self_refines ops v hv pos hp
+theorem list_insert_self_refines (p : Per) (ops : List Op) (v : Nat) (hv : v ≤ 1) (pos : Option Nat)
+    (hp : pos.getD (absNode (run (init p) ops) ⟨.L, v⟩).length ≤ (absNode (run (init p) ops) ⟨.L, v⟩).length) :
+    absNode (step (run (init p) ops) (.lInsertList v pos v)) ⟨.L, v⟩ =
+    absNode (step (step (run (init p) ops) (.copy ⟨.L, 1 - v⟩ v)) (.lInsertList v pos (1 - v))) ⟨.L, v⟩ :=
+  Refine.list_insert_self_refines p ops v hv pos hp
 
-theorem array_append_self_refines (ops : List Op) (v : Nat) (hv : v ≤ 1) :
-    absArr (step (run init ops) (.aAppendArr v v)) v =
-    absArr (step (step (run init ops) (.copy ⟨.A, 1 - v⟩ v)) (.aAppendArr v (1 - v))) v :=
-  Refine.array_append_self_refines ops v hv
+theorem array_append_self_refines (p : Per) (ops : List Op) (v : Nat) (hv : v ≤ 1) :
+    absArr (step (run (init p) ops) (.aAppendArr v v)) v =
+    absArr (step (step (run (init p) ops) (.copy ⟨.A, 1 - v⟩ v)) (.aAppendArr v (1 - v))) v :=
+  Refine.array_append_self_refines p ops v hv
 
-theorem set_append_self_refines (ops : List Op) (v : Nat) (hv : v ≤ 1) :
-    absNode (step (run init ops) (.sAppendSet v v)) ⟨.S, v⟩ =
-    absNode (step (step (run init ops) (.copy ⟨.S, 1 - v⟩ v)) (.sAppendSet v (1 - v))) ⟨.S, v⟩ :=
-  Refine.set_append_self_refines ops v hv
+theorem set_append_self_refines (p : Per) (ops : List Op) (v : Nat) (hv : v ≤ 1) :
+    absNode (step (run (init p) ops) (.sAppendSet v v)) ⟨.S, v⟩ =
+    absNode (step (step (run (init p) ops) (.copy ⟨.S, 1 - v⟩ v)) (.sAppendSet v (1 - v))) ⟨.S, v⟩ :=
+  Refine.set_append_self_refines p ops v hv
 
-theorem set_remove_self_refines (ops : List Op) (v : Nat) (hv : v ≤ 1) :
-    absNode (step (run init ops) (.sRemoveSet v v)) ⟨.S, v⟩ =
-    absNode (step (step (run init ops) (.copy ⟨.S, 1 - v⟩ v)) (.sRemoveSet v (1 - v))) ⟨.S, v⟩ :=
-  Refine.set_remove_self_refines ops v hv
+theorem set_remove_self_refines (p : Per) (ops : List Op) (v : Nat) (hv : v ≤ 1) :
+    absNode (step (run (init p) ops) (.sRemoveSet v v)) ⟨.S, v⟩ =
+    absNode (step (step (run (init p) ops) (.copy ⟨.S, 1 - v⟩ v)) (.sRemoveSet v (1 - v))) ⟨.S, v⟩ :=
+  Refine.set_remove_self_refines p ops v hv
 
-theorem map_insert_self_refines (ops : List Op) (v : Nat) (hv : v ≤ 1) :
-    absNode (step (run init ops) (.mInsertMap ⟨.M, v⟩ v)) ⟨.M, v⟩ =
-    absNode (step (step (run init ops) (.copy ⟨.M, 1 - v⟩ v)) (.mInsertMap ⟨.M, v⟩ (1 - v))) ⟨.M, v⟩ :=
-  Refine.map_insert_self_refines ops v hv
+theorem map_insert_self_refines (p : Per) (ops : List Op) (v : Nat) (hv : v ≤ 1) :
+    absNode (step (run (init p) ops) (.mInsertMap ⟨.M, v⟩ v)) ⟨.M, v⟩ =
+    absNode (step (step (run (init p) ops) (.copy ⟨.M, 1 - v⟩ v)) (.mInsertMap ⟨.M, v⟩ (1 - v))) ⟨.M, v⟩ :=
+  Refine.map_insert_self_refines p ops v hv
 
 /-- non-vacuity of the alias theorems: a reachable state with a full array (size 3 = capacity 3) and a list -/
 def aliasOps : List Op := [.aAppend 0 5, .aAppend 0 6, .aAppend 0 7, .lInsert 0 none 1, .lInsert 0 none 2]
-example : (absArr (run init aliasOps) 0)[0]? = some (some 5) ∧ ((run init aliasOps).arrs 0).size = 3 ∧
-    ((run init aliasOps).arrs 0).cap = 3 ∧ ((run init aliasOps).arrs 0).alive = true ∧
-    ((run init aliasOps).nodes ⟨.L, 0⟩).alive = true ∧ (absNode (run init aliasOps) ⟨.L, 0⟩).length = 2 := by
+example : (absArr (run (init per4) aliasOps) 0)[0]? = some (some 5) ∧ ((run (init per4) aliasOps).arrs 0).size = 3 ∧
+    ((run (init per4) aliasOps).arrs 0).cap = 3 ∧ ((run (init per4) aliasOps).arrs 0).alive = true ∧
+    ((run (init per4) aliasOps).nodes ⟨.L, 0⟩).alive = true ∧ (absNode (run (init per4) aliasOps) ⟨.L, 0⟩).length = 2 := by
   decide +kernel
 
 end Nstd.Life
